@@ -11,6 +11,7 @@ From VL Require Import Prelude.Sx Prelude.PyDict Prelude.GDict Model.GetNBest Mo
      Proofs.GetNBest_proofs Proofs.QOrd Proofs.Order_proofs Proofs.Convert_proofs Proofs.HA_proofs Proofs.Divisor_proofs Proofs.HAPerm_proofs Proofs.HARename_proofs
      Proofs.Condorcet_proofs Proofs.CopelandMono_proofs Proofs.Schulze_proofs Proofs.GnbSim_proofs Proofs.CondorcetOrder_proofs.
 From VL Require Import Model.Quota Model.QuotaDistributor Proofs.QDOrder_proofs Model.STV Proofs.STVOrder_proofs.
+From VL Require Proofs.Schwartz_proofs Proofs.SchwartzInv_proofs.
 Import ListNotations.
 Close Scope Q_scope.
 Close Scope Z_scope.
@@ -156,8 +157,15 @@ Theorem C10_condorcet_smith_order : forall v v', NoDup (map fst v) -> (forall p 
   Permutation (smith_schwartz v true) (smith_schwartz v' true).
 Proof. exact smith_perm. Qed.
 
-(* SchwartzSet is NOT order independent (known finding C10-schwartz-order): {(1,2):1,(2,1):1,(1,3):2,(3,1):0,(2,3):2,(3,2):0}
-   returns [1]; listing the pairs of 2 first returns [2] *)
+(* SchwartzSet (Model/Condorcet.v schwartz_set, the routine after the repair fixes/C06-schwartz-set): the same members
+   (their order follows the Copeland order of the Smith routine, stable among equal scores) *)
+Theorem C10_schwartz_order : forall v v', NoDup (map fst v) -> (forall p k, In (p, k) v -> (0 <= k)%Z) -> Permutation v v' ->
+  Permutation (schwartz_set v) (schwartz_set v').
+Proof. exact SchwartzInv_proofs.schwartz_perm. Qed.
+
+(* the routine the pinned tree ran for SchwartzSet (the Smith routine with ties = false) was NOT order independent (fixed
+   finding C10-schwartz-order): {(1,2):1,(2,1):1,(1,3):2,(3,1):0,(2,3):2,(3,2):0} returns [1]; listing the pairs of 2 first
+   returns [2].  Kept as the machine-checked reason for the repair *)
 Theorem C10_condorcet_schwartz_order_refuted : exists v v', NoDup (map fst v) /\ (forall p k, In (p, k) v -> (0 <= k)%Z) /\ Permutation v v' /\
   exists c, In c (smith_schwartz v false) /\ ~ In c (smith_schwartz v' false).
 Proof. exact schwartz_order_refuted. Qed.
@@ -350,6 +358,9 @@ Proof. intros f Hf v n. exact (kemeny_ren f Hf v n). Qed.
 Theorem C10_rename_smith_schwartz : forall f, injective f -> forall v ties,
   smith_schwartz (renp f v) ties = map f (smith_schwartz v ties).
 Proof. intros f Hf v t. exact (smith_schwartz_ren f Hf v t). Qed.
+Theorem C10_rename_schwartz_set : forall f, injective f -> forall v,
+  schwartz_set (renp f v) = map f (schwartz_set v).
+Proof. intros f Hf v. exact (SchwartzInv_proofs.schwartz_set_ren f Hf v). Qed.
 
 (* ---- the quota family (priority 2) *)
 Theorem C10_rename_quota_distributor : forall f, injective f ->
@@ -522,6 +533,10 @@ Theorem C10_symmetric_smith : forall t, (forall c, t (t c) = c) -> forall v,
   NoDup (map fst v) -> Permutation v (renp t v) -> (forall p k, In (p, k) v -> (0 <= k)%Z) -> forall a,
   In a (smith_schwartz v true) <-> In (t a) (smith_schwartz v true).
 Proof. intros t Ht v Hn Hp Hnn. exact (smith_symmetric t Ht v (conj Hn Hp) Hnn). Qed.
+Theorem C10_symmetric_schwartz : forall t, (forall c, t (t c) = c) -> forall v,
+  NoDup (map fst v) -> Permutation v (renp t v) -> (forall p k, In (p, k) v -> (0 <= k)%Z) -> forall a,
+  In a (schwartz_set v) <-> In (t a) (schwartz_set v).
+Proof. exact SchwartzInv_proofs.schwartz_symmetric. Qed.
 
 (* seats: QuotaDistributor / LargestRemainder (caps with symmetric lookups), the STV count and highest averages (caps and,
    for highest averages, previous gains listed symmetrically, e.g. absent) *)
@@ -624,6 +639,7 @@ Print Assumptions C10_condorcet_schulze_iteration_order.
 Print Assumptions C10_condorcet_kemeny_order.
 Print Assumptions C10_condorcet_smith_order.
 Print Assumptions C10_condorcet_schwartz_order_refuted.
+Print Assumptions C10_schwartz_order.
 Print Assumptions C10_condorcet_ranked_pairs_order.
 Print Assumptions C10_condorcet_ranked_pairs_order_refuted.
 Print Assumptions C10_quota_distributor_order.
@@ -638,6 +654,7 @@ Print Assumptions C10_rename_schulze.
 Print Assumptions C10_rename_ranked_pairs.
 Print Assumptions C10_rename_kemeny.
 Print Assumptions C10_rename_smith_schwartz.
+Print Assumptions C10_rename_schwartz_set.
 Print Assumptions C10_rename_quota_distributor.
 Print Assumptions C10_rename_largest_remainder.
 Print Assumptions C10_rename_quota_selector.
@@ -661,6 +678,7 @@ Print Assumptions C10_symmetric_schulze.
 Print Assumptions C10_symmetric_condorcet_winner.
 Print Assumptions C10_symmetric_kemeny.
 Print Assumptions C10_symmetric_smith.
+Print Assumptions C10_symmetric_schwartz.
 Print Assumptions C10_symmetric_quota_distributor.
 Print Assumptions C10_symmetric_largest_remainder.
 Print Assumptions C10_symmetric_stv.
